@@ -495,7 +495,13 @@ func c13DrawAtomic(r *simrt.Rng, vg *gen.G, s *treeState) (Op, bool) {
 	e := effect{Kind: "replace", Del: path, Put: map[string]string{}, PutOrder: map[string][]string{}, Target: "atomic"}
 	n := &gpb.Notification{Atomic: true, Prefix: model.ToGNMI(lt.Elems), Timestamp: 1}
 	plen := len(lt.Elems)
+	// one atomic notification in six carries no update at all: the subtree at its prefix is
+	// replaced by nothing
+	emptyAtomic := r.Intn(6) == 0
 	for _, q := range m.Paths() {
+		if emptyAtomic {
+			break
+		}
 		l := m.Leaves[q]
 		if yangKindName(l.Schema) == "empty" {
 			continue // scalar TypedValues cannot carry the empty type
